@@ -1729,6 +1729,16 @@ func (s *Service) runPipeline(rp *runnablePipeline) error {
 	// unconditionally, including on error, so the cleanup goroutine (already
 	// blocked on it) is never left hanging.
 	err := s.pipelines.UpdateStatus(ctx, rp.pipeline.ID, pipeline.StatusRunning, "")
+	if err != nil {
+		// Start is about to fail, but the workers are already running and the
+		// run is published. Left alone it stays live under whatever status the
+		// caller writes next: when this Start is the one nested in a recovery,
+		// the recovering run's cleanup writes Degraded over it, Stop then
+		// refuses (status), nothing tears the plugins down and every later
+		// Start fails with "connector is running". Wind the run down: its own
+		// cleanup goroutine (released below) finalizes it as Degraded.
+		rp.t.Kill(cerrors.FatalError(cerrors.Errorf("could not mark pipeline %s as running: %w", rp.pipeline.ID, err)))
+	}
 	close(startupDone)
 	return err
 }
